@@ -182,3 +182,107 @@ impl Prop for C05 {
         match matcher { "parallel-outside-simple-shape" => v.class.starts_with("semi-naive-parallel:") && !parallel_shape(&c.rules), _ => false }
     }
 }
+
+// =====================================================================================================================
+// C19 — inconsistency-tolerant answers are those true in every maximal repair, stable from run to run (DESIGN 6.14).
+// The explored source of nondeterminism is the hash seed: `compute_repairs` iterates HashSets.
+#[derive(Serialize, Deserialize, Clone, Debug)]
+pub struct RepCase { pub hash_seeds: Vec<u64>, pub facts: Vec<Fact>, pub constraints: Vec<Vec<Pat>>, pub goal: Pat, pub rules: Vec<dm::Rule> }
+pub struct C19;
+
+fn consistent(facts: &[Fact], constraints: &[Vec<Pat>]) -> bool { constraints.iter().all(|c| dm::match_premises(c, facts).is_empty()) }
+/// subset-maximal consistent subsets by enumeration of all subsets
+pub fn maximal_repairs(facts: &[Fact], constraints: &[Vec<Pat>]) -> Vec<Vec<Fact>> {
+    let n = facts.len();
+    let mut cons: Vec<u32> = vec![];
+    for mask in 0..(1u32 << n) { let sub: Vec<Fact> = (0..n).filter(|i| mask >> i & 1 == 1).map(|i| facts[i].clone()).collect(); if consistent(&sub, constraints) { cons.push(mask); } }
+    let maximal: Vec<u32> = cons.iter().copied().filter(|m| !cons.iter().any(|o| o != m && (o & m) == *m)).collect();
+    maximal.iter().map(|m| (0..n).filter(|i| m >> i & 1 == 1).map(|i| facts[i].clone()).collect()).collect()
+}
+fn answers_on(goal: &Pat, facts: &[Fact]) -> BTreeSet<Vec<(String, String)>> {
+    facts.iter().filter_map(|f| dm::unify(goal, f, &dm::Binding::new())).map(|b| b.into_iter().map(|(k, v)| (k[1..].to_string(), v)).collect()).collect()
+}
+
+impl Prop for C19 {
+    type Case = RepCase;
+    fn id(&self) -> &'static str { "C19" }
+    fn budget(&self, tier: Tier) -> Budget { match tier { Tier::Quick => Budget { runs: 2500, wall_s: 60, recheck: 30 }, Tier::Thorough => Budget { runs: 100_000, wall_s: 1500, recheck: 100 } } }
+    fn hash_seed(&self, c: &RepCase) -> u64 { c.hash_seeds.first().copied().unwrap_or(0) }
+    fn gen(&self, seed: u64, _i: u64, tier: Tier) -> RepCase {
+        let mut r = Rng::sub(seed, "workload"); let mut cfg = Rng::sub(seed, "swarm"); let mut hs = Rng::sub(seed, "hash");
+        let nn = 3 + r.usize(4); let node = |r: &mut Rng| format!("n{}", r.usize(nn));
+        let nf = 3 + r.usize(if cfg.chance(1, 4) { 8 } else { 6 });
+        let mut facts: Vec<Fact> = vec![];
+        while facts.len() < nf { let f = (node(&mut r), format!("p{}", r.usize(3)), node(&mut r)); if !facts.contains(&f) { facts.push(f); } }
+        let mut constraints = vec![];
+        for _ in 0..(1 + r.usize(3)) {
+            let c: Vec<Pat> = match r.below(5) {
+                0 => vec![("?x".into(), "p0".into(), "?y".into()), ("?x".into(), "p1".into(), "?y".into())],                   // disjointness
+                1 => vec![("?x".into(), format!("p{}", r.usize(3)), "?y".into()), ("?x".into(), format!("p{}", r.usize(3)), "?z".into()), ("?y".into(), "p2".into(), "?z".into())],
+                2 => vec![("?x".into(), format!("p{}", r.usize(3)), node(&mut r))],                                               // single-fact denial
+                3 => vec![("?x".into(), format!("p{}", r.usize(3)), "?y".into()), ("?y".into(), format!("p{}", r.usize(3)), "?x".into())],
+                _ => vec![(node(&mut r), format!("p{}", r.usize(3)), "?y".into()), ("?z".into(), format!("p{}", r.usize(3)), "?y".into())],
+            };
+            constraints.push(c);
+        }
+        let pos = |r: &mut Rng, v: &str| if r.chance(1, 3) { node(r) } else { v.to_string() };
+        let goal = (pos(&mut r, "?s"), if r.chance(1, 6) { "?p".to_string() } else { format!("p{}", r.usize(3)) }, pos(&mut r, "?o"));
+        let rules = if cfg.chance(1, 2) { vec![dm::Rule { prem: vec![("?x".into(), format!("p{}", r.usize(3)), "?y".into())], neg: vec![], conc: vec![("?y".into(), format!("p{}", r.usize(3)), "?x".into())], filt: vec![] }] } else { vec![] };
+        let k = if tier == Tier::Quick { 8 } else { 32 };
+        RepCase { hash_seeds: (0..k).map(|_| hs.next()).collect(), facts, constraints, goal, rules }
+    }
+    fn exec(&self, c: &RepCase, ctx: &mut Ctx) -> Option<Violation> {
+        if c.facts.len() > 12 || c.facts.is_empty() { return None; }
+        let mut facts = c.facts.clone(); facts.sort(); facts.dedup();
+        let reps = maximal_repairs(&facts, &c.constraints);
+        let mut expected: Option<BTreeSet<Vec<(String, String)>>> = None;
+        for rp in &reps { let a = answers_on(&c.goal, rp); expected = Some(match expected { None => a, Some(e) => e.intersection(&a).cloned().collect() }); }
+        let expected = expected.unwrap_or_default();
+        let conflict_free = consistent(&facts, &c.constraints);
+        ev!(ctx.log, "facts={} constraints={} repairs={} expected_answers={} consistent={}", facts.len(), c.constraints.len(), reps.len(), expected.len(), conflict_free);
+        if reps.len() >= 2 { ctx.hit("probe.several_maximal_repairs"); }
+        let mut seen_results: BTreeSet<BTreeSet<Vec<(String, String)>>> = BTreeSet::new();
+        for &hs in &c.hash_seeds {
+            let (facts_ref, cons_ref, goal_ref, rules_ref) = (&c.facts, &c.constraints, &c.goal, &c.rules);
+            let (got, after): (BTreeSet<Vec<(String, String)>>, BTreeSet<Fact>) = kolibrie_verif_rt::hash::with_hash_seed(hs, move || {
+                let mut re = build(facts_ref, &[]);
+                for cn in cons_ref { let rule = to_rule(&dm::Rule { prem: cn.clone(), neg: vec![], conc: vec![], filt: vec![] }, &re); re.add_constraint(rule); }
+                let g = (term_of(&goal_ref.0, &re), term_of(&goal_ref.1, &re), term_of(&goal_ref.2, &re));
+                let res = re.query_with_repairs(&g);
+                let d = re.dictionary.read().unwrap();
+                let got = res.iter().map(|b| { let mut v: Vec<(String, String)> = b.iter().map(|(k, id)| (k.clone(), d.decode(*id).unwrap_or("?").to_string())).collect(); v.sort(); v }).collect();
+                drop(d);
+                // repair-aware materialisation on a second reasoner
+                let mut rm = build(facts_ref, rules_ref);
+                for cn in cons_ref { let rule = to_rule(&dm::Rule { prem: cn.clone(), neg: vec![], conc: vec![], filt: vec![] }, &rm); rm.add_constraint(rule); }
+                rm.infer_new_facts_semi_naive_with_repairs();
+                (got, dump(&rm))
+            });
+            ctx.hit("fault.hash_seed_execution");
+            ev!(ctx.log, "hash_seed={} answers={}", hs, got.len());
+            seen_results.insert(got.clone());
+            if got != expected {
+                let missing: Vec<_> = expected.difference(&got).take(3).collect(); let extra: Vec<_> = got.difference(&expected).take(3).collect();
+                let class = if !missing.is_empty() { "answer-missing" } else { "answer-not-in-every-repair" };
+                return Some(Violation::new(class, format!("hash seed {}: query_with_repairs returned {} answers, the intersection over the {} subset-maximal repairs has {}; missing {:?}, extra {:?}; distinct results over the seeds tried so far: {}", hs, got.len(), reps.len(), expected.len(), missing, extra, seen_results.len())));
+            }
+            let after_v: Vec<Fact> = after.iter().cloned().collect();
+            if !consistent(&after_v, &c.constraints) { return Some(Violation::new("materialisation-inconsistent", format!("hash seed {}: infer_new_facts_semi_naive_with_repairs ends with {} facts on which a constraint fires", hs, after_v.len()))); }
+        }
+        if !conflict_free && !expected.is_empty() { ctx.hit("probe.answers_survive_conflict"); }
+        if reps.len() >= 2 { ctx.nontrivial(kolibrie_verif_rt::log::fnv(&format!("{:?}{:?}{:?}", facts, c.constraints, c.goal))); }
+        ctx.state(reps.len() as u64 * 1000 + expected.len() as u64);
+        None
+    }
+    fn shrink(&self, c: &RepCase) -> Vec<RepCase> {
+        let mut out = vec![];
+        for h in shrink_vec(&c.hash_seeds) { if !h.is_empty() { out.push(RepCase { hash_seeds: h, ..c.clone() }); } }
+        for f in shrink_vec(&c.facts) { if !f.is_empty() { out.push(RepCase { facts: f, ..c.clone() }); } }
+        for cs in shrink_vec(&c.constraints) { out.push(RepCase { constraints: cs, ..c.clone() }); }
+        if !c.rules.is_empty() { out.push(RepCase { rules: vec![], ..c.clone() }); }
+        out
+    }
+    fn rule(&self) -> String { "A case is one (fact set <= 12 facts, constraint set, goal pattern) executed under 8 (quick) or 32 (thorough) simulator-chosen hash seeds, each on its own OS thread; query_with_repairs is compared with the intersection of the goal's answers over all subset-maximal consistent subsets (enumeration of all subsets), and repair-aware materialisation must end consistent. Non-trivial = at least two maximal repairs; distinct = hash of (facts, constraints, goal).".into() }
+    fn assumptions(&self) -> Vec<String> { vec!["constraints are premise-only rules; a set violates a constraint iff the premise join is non-empty (as violates_constraints does)".into(), "run-to-run variation is modelled as variation of std's per-thread hash keys, which the simulator owns through the getrandom symbol".into()] }
+    fn real_vs_stub(&self) -> serde_json::Value { serde_json::json!({"real": ["Reasoner::{query_with_repairs, compute_repairs, violates_constraints, infer_new_facts_semi_naive_with_repairs}"], "simulated": ["std RandomState keys per execution (getrandom interposer)"], "not_run": []}) }
+}
